@@ -687,6 +687,24 @@ theorem siphash_round_as_coded (s : Sip) :
       (s.round.v0.toBitVec, s.round.v1.toBitVec, s.round.v2.toBitVec, s.round.v3.toBitVec) :=
   go_sipRound s
 
+/-- `(*redisDict).hashToIndex` translated from the Go source on this run — mask with `bucketCount-1`, shift left by
+    `32 - bitPos`, `bits.Reverse32` — is the model's `bucketOf k` on the low 32 bits of the hash, for every 64-bit
+    hash and every table size `2^k`, `k ≤ 31`.  (`bitPosition`, a lookup in a map built at start-up, is the one
+    external: the statement is for `bitPosition(2^k) = k`, which the `scan` tool's bucket-order comparison exercises.) -/
+theorem hashToIndex_as_coded (h : BitVec 64) (k : Nat) (hk : k ≤ 31) :
+    (Go.hashToIndex h (BitVec.ofNat 32 (2 ^ k)) (BitVec.ofNat 64 k)).toNat = bucketOf k (h.toNat % 2 ^ 32) :=
+  go_hashToIndex h k hk
+
+/-- hence a key's bucket in the code is the bucket the model puts it in: `bucketOf k (hash32 key)` -/
+theorem hashToIndex_of_key (key : Bytes) (k : Nat) (hk : k ≤ 31) :
+    (Go.hashToIndex (sipHash key).toBitVec (BitVec.ofNat 32 (2 ^ k)) (BitVec.ofNat 64 k)).toNat = bucketOf k (hash32 key) := by
+  rw [go_hashToIndex _ k hk]; rfl
+
+/-- non-vacuity: 16 buckets, hash 0b…0001 lands in bucket 8 (bit-reversed order), hash 0b…1111 in 15 -/
+theorem hashToIndex_examples :
+    Go.hashToIndex 1#64 16#32 4#64 = 8#32 ∧ Go.hashToIndex 0xffffffffffffffff#64 16#32 4#64 = 15#32 ∧
+    Go.hashToIndex 0x1234567800000002#64 16#32 4#64 = 4#32 := by decide +kernel
+
 /-- the reference vector of SipHash-2-4 … with the zero key and the Go code's tail handling the model
     gives this value for the empty input and for "a" (also checked against `calcSipHash` by the `scan` tool) -/
 theorem siphash_examples : sipHash [] = 0x1e924b9d737700d7 ∧ (sipHash [97]).toNat % 2 ^ 32 = hash32 [97] := by
